@@ -287,18 +287,22 @@ def check_coders(ctx, F):
             # index of the Continue decision of the `?` applied to the lookup
             i_cont = None
             for i, e in enumerate(evs):
-                if e['kind'] == 'branch' and e['term'][0] == 'discr' and e['term'][1][0] == 'try' and sym.contains(e['term'][1], lambda x: isinstance(x, tuple) and x and x[0] == 'call' and x[1].endswith(LOOKUP)):
-                    if sym.discr_variant(e['term'], e['value']) == 'Continue':
+                # `?` on the lookup (discr(try(..)) Continue/Break) or an explicit match / if-let on it (Some/None, Ok/Err)
+                if e['kind'] == 'branch' and e['term'][0] == 'discr' and sym.contains(e['term'][1], lambda x: isinstance(x, tuple) and x and x[0] == 'call' and x[1].endswith(LOOKUP)):
+                    variant = sym.discr_variant(e['term'], e['value'])
+                    if variant in ('Continue', 'Some', 'Ok'):
                         i_cont = i
-                    else:
+                    elif variant in ('Break', 'None', 'Err') and (r.end != 'return' or outcome_of(r.ret) == 'reject'):
                         i_cont = -1
+                    else:
+                        i_cont = None
                     break
             if i_lookup is None:
                 if i_mut is not None:
                     bad = 'a path mutates the coder without consulting the model'
                 continue
             if i_cont is None:
-                bad = 'the result of the model lookup is not `?`-propagated'
+                bad = 'the result of the model lookup is neither `?`-propagated nor matched with a rejecting arm'
                 break
             if i_cont == -1:
                 n_reject += 1
